@@ -245,8 +245,14 @@ def run(chk):
              "state_token_not_received": 0, "state_mismatch_first": None}
 
     def account(trace, what):
-        st = trace[-1]
-        assert st[0] == "stats"
+        st = trace[-1] if trace else ("?",)
+        if st[0] != "stats":
+            # the driver threads did not all run to their end under this schedule (a thread waits for work
+            # another thread's trampoline took over, ...): never the case with independent per-thread trampolines
+            w = dict(what)
+            w["what_failed"] = ["a-thread-does-not-finish-under-this-schedule", "the driver's closing record is missing"]
+            failures.append((10 ** 6, f"a-thread-does-not-finish-under-this-schedule|{what.get('mode')}", w))
+            return
         stats["cancel_via_public_handle"] += st[1]["handle"]
         stats["cancel_via_item_before_the_call_returned"] += st[1]["item"]
         for k, v in st[2].items():
@@ -315,10 +321,18 @@ def run(chk):
         def run_once(ch, hs=hs, c0=c0):
             sched, obs, trace, done, ctr = tramp.run_k3(c0, hs, ch)
             return ctr, (sched, obs, trace, done, k3.preemptions(ctr))
-        runs = list(k3.explore(run_once, bound, limit=limit))
-        for _ in range(6 if tier == "quick" else 30):     # seeded random schedules
-            ctr, res = run_once(k3.random_chooser(chk.rng))
-            runs.append((res[0], res))
+        try:
+            runs = list(k3.explore(run_once, bound, limit=limit))
+            for _ in range(6 if tier == "quick" else 30):     # seeded random schedules
+                ctr, res = run_once(k3.random_chooser(chk.rng))
+                runs.append((res[0], res))
+        except k3.ControllerError as e:
+            # a scheduling thread blocked (or hung) under a controlled schedule: with independent per-thread
+            # trampolines no thread ever waits for another one
+            failures.append((sum(tramp.hsize(h) for h in hs) * 100, sig_of("a-thread-blocks-under-some-schedule", "K3", hs),
+                             {"mode": "k3-hang", "c0": c0, "histories": hs, "bound": bound, "limit": limit,
+                              "what_failed": ["a-thread-blocks-under-some-schedule", repr(e)]}))
+            continue
         seen = set()
         for _, (sched, obs, trace, done, npre) in runs:
             key = tuple(sched)
@@ -431,6 +445,19 @@ def replay(chk, path):
         bad = tramp.oracle(trace, 2)
         print("histories", json.dumps(d["histories"]))
         print("schedule asked", d["schedule"], "followed", sched, "all threads finished", done)
+    elif d.get("mode") == "k3-hang":
+        def run_once(ch):
+            sched, obs, trace, done, ctr = tramp.run_k3(d["c0"], d["histories"], ch)
+            return ctr, (sched, obs, trace, done, k3.preemptions(ctr))
+        print("histories", json.dumps(d["histories"]))
+        try:
+            n = len(list(k3.explore(run_once, d["bound"], limit=d["limit"])))
+            print("all", n, "schedules ran to the end")
+            return 0
+        except k3.ControllerError as e:
+            print("FAILS a-thread-blocks-under-some-schedule", repr(e))
+            print(f"VIOLATION property=C30 replay={path}")
+            return 1
     else:
         print(json.dumps(d, indent=1))
         return 1
